@@ -28,6 +28,10 @@ import bmc  # noqa: E402
 
 
 REPO = os.environ.get("E3_REPO", "/repo")  # E3_REPO: only for trying seeded changes in a scratch copy
+# a scratch run must not touch the evidence and replay files of the registered checks
+_SCRATCH = "E3_REPO" in os.environ
+EVID_DIR = os.path.join(VERIF, ".work", "evidence-partial") if _SCRATCH else os.path.join(VERIF, "evidence")
+REPLAY_DIR = os.path.join(VERIF, ".work", "replays-alt-%d" % os.getpid()) if _SCRATCH else os.path.join(VERIF, "replays")
 
 
 def dump_mir():
@@ -276,8 +280,8 @@ def main():
     if "--tier" in sys.argv:
         tier = sys.argv[sys.argv.index("--tier") + 1]
     t0 = time.time()
-    os.makedirs(os.path.join(VERIF, "evidence"), exist_ok=True)
-    os.makedirs(os.path.join(VERIF, "replays"), exist_ok=True)
+    os.makedirs(EVID_DIR, exist_ok=True)
+    os.makedirs(REPLAY_DIR, exist_ok=True)
     allq, funcs, states, transitions = [], [], 0, 0
     validated = 0
     rc = 0
@@ -323,7 +327,7 @@ def main():
     for i, q in enumerate(viol):
         rep = native_replay(q)
         q["native"] = rep
-        path = os.path.join(VERIF, "replays", "%s-e3-%d.json" % (prop, i))
+        path = os.path.join(REPLAY_DIR, "%s-e3-%d.json" % (prop, i))
         json.dump(q, open(path, "w"), indent=1)
         if rep.get("reproduced"):
             print("VIOLATION property=%s replay=%s" % (prop, path))
@@ -473,7 +477,7 @@ def write_evidence(prop, tier, allq, funcs, states, transitions, wall, nviol, kn
             "bounds: queue_len, n_threads, number of sets and depth as listed per query",
         ],
         wall_s=round(wall, 1), violations=nviol)
-    json.dump(ev, open(os.path.join(VERIF, "evidence", prop + ".json"), "w"), indent=1)
+    json.dump(ev, open(os.path.join(EVID_DIR, prop + ".json"), "w"), indent=1)
 
 
 if __name__ == "__main__":
